@@ -34,7 +34,7 @@ def dry_processMessageG (env : PEnv) (orc : EvalOracles) (ev : Env → Msg → M
       | some ms =>
         let eenv : Env := {
           rx := orc.rx, command := fun _ => -1, isDir := fun _ => false, now := env.now,
-          strptime := orc.strptime, zoneName := orc.zoneName, fileTime := fun _ => none,
+          strptime := orc.strptime, zoneName := orc.zoneName, fileTime := fun _ => none, timeFormat := orc.timeFormat,
           dryrun := env.dryrun, path := ms.path }
         let free (ms : MsgSt) : Prog Unit :=
           match ms.fd with
@@ -56,13 +56,39 @@ def dry_processMessageG (env : PEnv) (orc : EvalOracles) (ev : Env → Msg → M
               pure ({ st1 with error := st1.error || e, reject := st1.reject || xs.reject,
                                files := afterExec st1.files md.path name xs.ms }, md)
 
-theorem dry_processMessage_eqG (env : PEnv) (orc : EvalOracles) (expr : Expr) :
+/-- For a rule tree that asks the operating system nothing, evaluation is the pure `eval` (`evalP_asksFree`). -/
+theorem dry_processMessage_eqG (env : PEnv) (orc : EvalOracles) (expr : Expr) (hfree : asksFree expr = true) :
     processMessage env orc expr =
-      dry_processMessageG env orc (fun eenv m fl => eval eenv m expr 0 m { ml := [], flags := fl }) := rfl
+      dry_processMessageG env orc (fun eenv m fl => eval eenv m expr 0 m { ml := [], flags := fl }) := by
+  funext md name st
+  have he : ∀ (p : Bytes) (m : Msg) (fl : MFlags),
+      evalP (msgEnv env orc p) expr m fl = .ret (eval (msgEnv env orc p) m expr 0 m { ml := [], flags := fl }) :=
+    fun p m fl => evalP_asksFree (msgEnv env orc p) expr hfree m fl
+  unfold processMessage dry_processMessageG
+  cases md.dirH with
+  | none => rfl
+  | some d =>
+    dsimp only
+    cases st.files.get md.path name with
+    | none => rfl
+    | some content =>
+      dsimp only
+      show (messageParseP d md.path name content).bind _ = (messageParseP d md.path name content).bind _
+      congr 1
+      funext pm
+      cases pm with
+      | none => rfl
+      | some ms =>
+        dsimp only
+        have := he ms.path ms.msg ms.flags
+        unfold msgEnv at this
+        show (evalP _ _ _ _).bind _ = _
+        rw [this]
+        rfl
 
 /-- `walk` with the processing of one message as a parameter. -/
 def dry_walkG (pm : Maildir → Bytes → MainSt → Prog (MainSt × Maildir)) : Nat → Maildir → MainSt → Prog (MainSt × Maildir)
-  | 0, md, st => .ret (st, md)
+  | 0, md, st => .ret ({ st with fuelOut := true }, md)
   | fuel + 1, md, st =>
     match md.dirH with
     | none => .ret (st, md)
@@ -128,10 +154,11 @@ theorem dry_walk_eqG (env : PEnv) (orc : EvalOracles) (expr : Expr) (fuel : Nat)
       | err e => rfl
 
 /-- `walk` with `eval` made explicit (so that `simp only [eval]` can unfold it on a concrete rule). -/
-theorem dry_walk_G (env : PEnv) (orc : EvalOracles) (expr : Expr) (fuel : Nat) (md : Maildir) (st : MainSt) :
+theorem dry_walk_G (env : PEnv) (orc : EvalOracles) (expr : Expr) (hfree : asksFree expr = true) (fuel : Nat) (md : Maildir)
+    (st : MainSt) :
     walk env orc expr fuel md st =
       dry_walkG (dry_processMessageG env orc (fun eenv m fl => eval eenv m expr 0 m { ml := [], flags := fl })) fuel md st := by
-  rw [dry_walk_eqG, dry_processMessage_eqG]
+  rw [dry_walk_eqG, dry_processMessage_eqG env orc expr hfree]
 
 /-! ## the witness -/
 
@@ -163,7 +190,9 @@ theorem dry_f21_witness :
     (dry_runNone_eq (mainP dry_f21DryEnv wholeExOrc true dry_f21Conf wholeExFiles []) wholeExWorld 0 []).1,
     Own.mainP_eq, Own.mainP_eq]
   unfold Own.mainK
-  simp only [dry_f21Conf, Own.blocks_cons, Own.blocks_nil, Own.paths_cons, Own.paths_nil, dry_walk_G, dry_f21Expr, eval]
+  simp only [dry_f21Conf, Own.blocks_cons, Own.blocks_nil, Own.paths_cons, Own.paths_nil,
+    dry_walk_G _ _ dry_f21Expr (by decide)]
+  simp only [dry_f21Expr, eval]
   decide +kernel
 
 /-! ## a second witness: the message does not end where the verdict on its initial file says -/
@@ -206,7 +235,9 @@ theorem dry_f21_witness2 :
       (fun x => x.1 == exCur) = [] := by
   rw [(dry_runNone_eq (mainP exEnv wholeExOrc true dry_f21Conf2 wholeExFiles []) dry_f21World2 0 []).1, Own.mainP_eq]
   unfold Own.mainK
-  simp only [dry_f21Conf2, Own.blocks_cons, Own.blocks_nil, Own.paths_cons, Own.paths_nil, dry_walk_G, dry_f21Expr2, eval]
+  simp only [dry_f21Conf2, Own.blocks_cons, Own.blocks_nil, Own.paths_cons, Own.paths_nil,
+    dry_walk_G _ _ dry_f21Expr2 (by decide)]
+  simp only [dry_f21Expr2, eval]
   decide +kernel
 
 
@@ -302,7 +333,9 @@ theorem dry_ex_runs :
     (dry_runNone_eq (mainP { exEnv with dryrun := true } wholeExOrc true exit0_exConf wholeExFiles []) dry_f21World2 0 []).1,
     Own.mainP_eq, Own.mainP_eq]
   unfold Own.mainK
-  simp only [exit0_exConf, Own.blocks_cons, Own.blocks_nil, Own.paths_cons, Own.paths_nil, dry_walk_G, exit0_exExpr, eval]
+  simp only [exit0_exConf, Own.blocks_cons, Own.blocks_nil, Own.paths_cons, Own.paths_nil,
+    dry_walk_G _ _ exit0_exExpr (by decide)]
+  simp only [exit0_exExpr, eval]
   decide +kernel
 
 end Mdsort.Proofs
